@@ -808,12 +808,32 @@ func checkSaveMainBranch(p *load.Program, r *kit.Report) {
 			return
 		}
 		// used as argument of headersFilePath → file index step; compared with height+1 → boundary
-		for _, ref := range *b.Referrers() {
-			if c, ok := ref.(*ssa.Call); ok && kit.CallID(c) == H+".headersFilePath" {
-				sawFile = true
-				if k != 1 {
-					bad = "file index advances by " + fmt.Sprint(k)
+		// the counter (directly, or through the loop phi it feeds) is the file index handed to
+		// headersFilePath
+		isFileIdx := false
+		seenV := map[ssa.Value]bool{}
+		var follow func(v ssa.Value, d int)
+		follow = func(v ssa.Value, d int) {
+			if d > 3 || seenV[v] || v.Referrers() == nil {
+				return
+			}
+			seenV[v] = true
+			for _, ref := range *v.Referrers() {
+				switch x := ref.(type) {
+				case *ssa.Call:
+					if kit.CallID(x) == H+".headersFilePath" {
+						isFileIdx = true
+					}
+				case *ssa.Phi:
+					follow(x, d+1)
 				}
+			}
+		}
+		follow(b, 0)
+		if isFileIdx {
+			sawFile = true
+			if k != 1 {
+				bad = "file index advances by " + fmt.Sprint(k)
 			}
 		}
 		if k == per {
